@@ -147,7 +147,27 @@ func init() {
 		return Ite(a[0].(*Term), a[1].(*Term), a[2].(*Term))
 	})
 	setIntrinsic(hpath+"vMapOrderFixed", func(ex *Exec, fn *ssa.Function, a []Value) Value {
-		ex.fixOrder = a[0].(*Term).Bool()
+		if a[0].(*Term).Bool() {
+			ex.fixDepth++
+		} else if ex.fixDepth > 0 {
+			ex.fixDepth--
+		}
+		ex.fixOrder = ex.fixDepth > 0
+		return nil
+	})
+	setIntrinsic(hpath+"vRecord", func(ex *Exec, fn *ssa.Function, a []Value) Value {
+		name := ex.argName(a[0])
+		s := a[1].(*SliceV)
+		n := ex.concInt(s.Len)
+		bs := make([]byte, n)
+		for k := 0; k < n; k++ {
+			t := s.Arr.cell(s.Off + k).V.(*Term)
+			if !t.IsConst() {
+				ex.unsupported("vRecord of symbolic bytes")
+			}
+			bs[k] = byte(t.C)
+		}
+		ex.records = append(ex.records, fmt.Sprintf("%s %x", name, bs))
 		return nil
 	})
 	setIntrinsic(hpath+"vSymbolic", func(ex *Exec, fn *ssa.Function, a []Value) Value { return trueT })
